@@ -594,6 +594,24 @@ func (app *EVMApp) queryContractExistence(load []byte) gtypes.Result {
 	return gtypes.NewResultOK(append([]byte{}, byte(0x00)), "constract doesn't exist")
 }
 
+// lastCommittedHeader returns the EVM header of the last committed block, as OnExecute
+// built it (makeCurrentHeader and makeETHHeader fill the same fields from the block header).
+func (app *EVMApp) lastCommittedHeader() (*etypes.Header, error) {
+	res, err := app.LoadLastBlock(&LastBlockInfo{AppHash: make([]byte, 0)})
+	if err != nil {
+		return nil, err
+	}
+	lastBlock := res.(*LastBlockInfo)
+	if lastBlock.Height < 1 || app.core == nil {
+		return nil, fmt.Errorf("no executed block to query against (height %d)", lastBlock.Height)
+	}
+	blockMeta, err := app.core.GetBlockMeta(lastBlock.Height)
+	if err != nil {
+		return nil, err
+	}
+	return makeETHHeader(blockMeta.Header), nil
+}
+
 func (app *EVMApp) queryContract(load []byte, height uint64) gtypes.Result {
 	tx := new(etypes.Transaction)
 	err := rlp.DecodeBytes(load, tx)
@@ -616,8 +634,16 @@ func (app *EVMApp) queryContract(load []byte, height uint64) gtypes.Result {
 	queryConfig.DisableAdminOp = true
 
 	if height == 0 {
+		header := app.currentHeader
+		if header == nil {
+			// no block executed in this process yet (fresh start or restart): rebuild the
+			// header of the last committed block instead of dereferencing a nil header
+			if header, err = app.lastCommittedHeader(); err != nil {
+				return gtypes.NewError(gtypes.CodeType_InternalError, err.Error())
+			}
+		}
 
-		envCxt := core.NewEVMContext(txMsg, app.currentHeader, bc, nil)
+		envCxt := core.NewEVMContext(txMsg, header, bc, nil)
 
 		app.stateMtx.Lock()
 		vmEnv = vm.NewEVM(envCxt, app.state.Copy(), app.chainConfig, queryConfig)
